@@ -134,6 +134,13 @@ def c17_case(ctx, rng, gen_size, which, kind, pos_class):
         results = {}
         for name, args in APIS:
             rc, out, err, raw = cli(d, *args, env=env); results[name] = rc
+        # `log tail` reads the configuration as well (its host and port); it blocks when it works, so: it must be gone, with an error, within
+        # three seconds - still serving after that counts as "succeeded"
+        e_ = dict(os.environ); e_.update(vlib.GIT_ENV); e_.update(env)
+        lt = subprocess.Popen([vlib.BIN_MONORAIL, "-f", os.path.join(d, "Monorail.json"), "log", "tail", "--stdout", "--stderr"], cwd=d, env=e_, stdout=subprocess.PIPE, stderr=subprocess.PIPE)
+        try: lt.wait(timeout=3); results["log_tail"] = lt.returncode
+        except subprocess.TimeoutExpired:
+            lt.kill(); lt.wait(); results["log_tail"] = 0
         after = side_effects(d, hd)
         any_ok = any(rc == 0 for rc in results.values())
         all_fail = all(rc != 0 for rc in results.values())
